@@ -1,10 +1,12 @@
 #!/bin/sh
 cd /verif
-while ! grep -q CROSS5DONE .work/cross5.log 2>/dev/null; do sleep 20; done
-ref() { timeout 7000 python3 tools/evalrefactor.py $1 $2 --checks=$3 >> .work/cross6.log 2>&1; }
-ref refactor-render-r2 /tmp/mut/R3/out/r2 C06 &
-ref refactor-render-r1 /tmp/mut/R3/out/r1 C06 &
-wait
-ref refactor-decode-r1 /tmp/mut/R1/out/r1 C02,C11,C18
-ref refactor-render-r3 /tmp/mut/R3/out/r3 C16,C06
-echo CROSS6DONE >> .work/cross6.log
+cat <<L | xargs -P 3 -I{} sh -c 'set -- {}; timeout 2400 python3 tools/evalmut.py $1 /verif/seeded/$2 --checks=$3 >> .work/cross6.log 2>&1'
+C17 C17-m6 C17
+C04 C04-m5 C04
+C15 C15-m5 C04
+C01 C01-m6 C01
+C11 C11-m3 C11
+C20 C20-m6 C20
+C06 C06-m1 C06
+L
+echo CROSSDONE >> .work/cross6.log
